@@ -491,6 +491,29 @@ def aggregation(run, repo):
                   'species F/RT differs from U/RT - S/R: %s' % show(sub(I, F, I.binop('-', U, S))),
                   owner.module, fn)
         n += 2
+    # the same twins on the values with units, references and misc models attached, under every option the
+    # getters share (G = H - T*S, F = U - T*S in J/mol and eV; an option consumed by one of them shows)
+    for opts in ({}, {'use_references': False}, {'S_elements': True}, {'use_references': False, 'S_elements': True}):
+        I = Interp(repo, max_depth=10)
+        D = I.D
+        T, P = D.sym('T'), D.sym('P')
+        sp, modes = build(I, True, True)
+        for units in ('J/mol', 'eV'):
+            vals = {}
+            for q in ('G', 'H', 'S', 'F', 'U'):
+                owner, fn = repo.find_method(ci, 'get_' + q)
+                names = params(fn)[0]
+                kw = {'T': T, 'P': P, 'units': units + '/K' if q == 'S' else units}
+                kw.update({k: v for k, v in opts.items() if k in names})
+                vals[q] = I.call_method(sp, 'get_' + q, [], kw)
+            key = '%s %s' % (units, ','.join('%s=%s' % kv for kv in sorted(opts.items())) or 'defaults')
+            for q, e in (('G', 'H'), ('F', 'U')):
+                owner, fn = repo.find_method(ci, 'get_' + q)
+                want = I.binop('-', vals[e], I.binop('*', T, vals['S']))
+                run.check(same(vals[q], want), 'TWIN.%s=%s-TS' % (q, e), 'StatMech.get_' + q, key,
+                          'species %s differs from %s - T*S in %s under the same options: %s'
+                          % (q, e, units, show(sub(I, vals[q], want))), owner.module, fn)
+                n += 1
     # get_EoRT: electronic energy, plus ZPE/RT iff include_ZPE
     I = Interp(repo, max_depth=10)
     D = I.D
